@@ -45,7 +45,7 @@ def main():
     a_at_read, b_at_unlink, a_done, b_checked = (threading.Event() for _ in range(4))
     a_at_remove, b_renamed = threading.Event(), threading.Event()
     renamed = {"A": False, "B": False}
-    T = 15
+    T = 40
 
     def hook(ev, args):
         n = threading.current_thread().name
